@@ -62,6 +62,12 @@ Definition tol_sum (terms : list Q) : Q := 2 * (nq terms + 1) * ulp53 * Qsumabs 
    denominators of the c_i; checked when D <= 64 (no logarithm is ever computed) ---------- *)
 Definition lcm_dens (cs : list Q) : Z := fold_left (fun a c => Z.lcm a (Zpos (Qden (Qred c)))) cs 1%Z.
 (* 0 value checked, 1 only bracketed (D too large), 2 mismatch *)
+(* the log-average carries an absolute error proportional to max |ln x_i| in the exponent: beyond
+   |log2 x| = 64 (ordinary magnitudes: factor 1) the relative tolerance grows with max |log2 x_i| / 64
+   (16 at the ends of the float64 range) *)
+Definition lg2abs (q : Q) : Z := (Z.abs (Z.log2 (Z.abs (Qnum q)) - Z.log2 (Zpos (Qden q))) + 1)%Z.
+Definition geo_scale (xs : list Q) : Q :=
+  Qmaxb 1 (inject_Z (fold_left (fun a x => Z.max a (lg2abs x)) xs 0%Z) / 64).
 Definition geo_check (xs cs : list Q) (obs : xreal) : Z :=
   match obs with
   | XFin g =>
@@ -79,7 +85,7 @@ Definition geo_check (xs cs : list Q) (obs : xreal) : Z :=
         else
           let es := map (fun c => Z.to_nat (Qnum (Qred (c * inject_Z D)))) cs in
           let target := fold_left (fun a p => Qred (a * qpow (fst p) (snd p))) (combine xs es) 1 in
-          let rel := inject_Z D * (nq xs + 8) * 64 * (1 # (2 ^ 52)%positive) in
+          let rel := geo_scale xs * (inject_Z D * (nq xs + 8) * 64 * (1 # (2 ^ 52)%positive)) in
           if within (rel * target) target (qpow g (Z.to_nat D)) then 0%Z else 2%Z
   | _ => 2%Z
   end.
